@@ -100,6 +100,16 @@ pub fn check_default(kind: Kind, clock: Clock, spec: &[i128]) -> Result<(), Stri
             let y = short(n, a(2));
             (format!("{} DD", "Y".repeat(n as usize)), format!("{} {}", a(2), a(3)), with_time(date(y, cm, a(3)), 0))
         }
+        // 18: short year with an explicit '+' (n, value, with month-day?)
+        18 => {
+            let n = a(1) as u32;
+            let y = short(n, a(2));
+            if a(3) == 0 {
+                ("Y".repeat(n as usize), format!("+{}", a(2)), with_time(date(y, cm, 1), 0))
+            } else {
+                (format!("DD.MM.{}", "Y".repeat(n as usize)), format!("04.03.+{}", a(2)), with_time(date(y, 3, 4), 0))
+            }
+        }
         k => return Err(format!("unknown default spec {k}")),
     };
     // time-bearing specs make no sense for the plain Date type: an error is required there
@@ -236,6 +246,10 @@ fn specs_for(r: &Row, idx: u64, seed: u64, thorough: bool) -> Vec<Vec<i128>> {
             v.push(vec![17, n, val, 29]);
             v.push(vec![17, n, val, 31]);
         }
+    }
+    // a leading '+' on a short year (for YY only one digit: '+' and two digits read as a full year)
+    for (n, val) in [(1i128, 5i128), (1, 0), (3, 123), (3, 7), (3, 45), (2, 5), (1, sm.below(10) as i128), (3, sm.below(1000) as i128)] {
+        v.push(vec![18, n, val, (val + idx as i128) % 2]);
     }
     v.push(vec![9, 13, 45]);
     v.push(vec![9, 0, 0]);
